@@ -29,6 +29,10 @@ func ruleC14(r *Report) {
 	checkTrustedCasts(r, p, libFunctions(p), "C14.no-trusted-cast")
 	checkBodyWrites(r, p)
 	checkEndpointTypes(r, p)
+	// an emitted form stays what it was: the bytes the POST-form builders hand out belong to the call (C12.form-buffer,
+	// borrowed) — a pooled or shared buffer lets the strings of a later request rewrite a form already emitted
+	r.Rule("C14.form-buffer", "the bytes returned by the POST-form builders come from a buffer owned by that call (C12.form-buffer, borrowed): no later request's strings can alter an emitted form", 1)
+	r.borrow("C12.form-buffer", "C14.form-buffer", func() { checkFormBuffers(r, p) })
 }
 
 // isConstantText: v is a compile-time constant string, a concatenation of such, or a parameter of an unexported
